@@ -3,6 +3,7 @@ import json, os, random, re
 from vlib import Inconclusive, read_ndjson, write_ndjson, split_traces
 
 ENGINE = "writer"
+PROPS = {"C01": "model_checking", "C07": "model_checking", "C08": "model_checking"}
 
 PROP_INVS = {
     "C01": ["C01_NilMeansAcked", "C01_ErrorsExact", "C01_CompletionOnce", "C01_NoStrayWrites", "C01_DupOnlyFromLostAck"],
